@@ -94,6 +94,7 @@ func runOne(t *testing.T, e *Engine, prop, cfg string, tape *Tape) (s *Sim) {
 
 	synctest.Test(t, func(_ *testing.T) {
 		s.start = time.Now()
+		s.wake = make(chan struct{}, 1) // must be created inside the bubble to block durably
 		s.Install()
 		defer s.Uninstall()
 		defer func() { s.elapsed = time.Since(s.start) }()
@@ -125,6 +126,10 @@ func report(idx uint64, s *Sim, withTrace bool) (r RunReport) {
 		TraceSig:  fmt.Sprintf("%016x", s.TraceSig()),
 		Sig:       fmt.Sprintf("%016x", s.T.Sig()),
 	}
+	for len(r.Tape) > 0 && r.Tape[len(r.Tape)-1] == 0 {
+		r.Tape = r.Tape[:len(r.Tape)-1]
+	}
+
 	if withTrace {
 		r.Trace = s.Trace()
 	}
